@@ -30,8 +30,9 @@ RULE = ('one evaluation = one path = one literal/invocation skeleton x one class
 BOUNDS = {
     'quick': 'integers: sign run <= 2 (each of + - blank), radix in {decimal, octal, hex, character code}, <= 3 digit characters each drawn from the digit range plus its '
              'two neighbours, 7 followers, plus count registers with unbounded values; dimensions: 5 decimal forms x 2 symbolic unit letters (either case) x {true, no true} '
-             'and register multiples; glue: dimen plus/minus with the 3 fil orders; signatures: 1-2 arguments over {*, [], (), <>, mandatory} x {str, int, dimen, list, dict, none} '
-             'with 2-3 symbolic content characters',
+             'and register multiples; decimal constants (5 forms x sign run <= 2) through readDecimal; glue: dimen plus/minus with the 3 fil orders; glue and muglue registers with '
+             'stretch/shrink components under a sign run of 2; signatures: 1-2 arguments over {*, [], (), <>, mandatory} x {str, int, float, dimen, list, dict, nox, none} '
+             'with 2-3 symbolic content characters; stream-read types Number, Dimen, Glue, Tok, cs followed by a mandatory argument',
     'thorough': 'sign run <= 3, <= 4 digits, all followers; dimension forms with 2 integer and 2 fraction digits; glue with symbolic units on each component; '
                 'signatures with up to 3 arguments and 3 content characters',
 }
@@ -40,7 +41,7 @@ ASSUMPTIONS = ['dimensions: plasTeX stores floats, the oracle is the exact ratio
                'unit letters are ASCII', 'dimen register values lie in TeX\'s range |d| <= 2^30 sp', 'hex digits are 0-9A-F as in TeX (plasTeX additionally accepts a-f)',
                'the optional blank after a character constant (`c) is not required to be consumed (plasTeX leaves it)',
                'brackets of bracketed arguments nest (the property says nested brackets are matched; LaTeX itself stops at the first closing bracket)']
-OUTSIDE = ['signatures with more than 3 arguments', 'mu units', 'arguments of type url/label/ref/cs', 'literals followed by a newline']
+OUTSIDE = ['signatures with more than 3 arguments', 'mu units in literals', 'arguments of type url/label/ref', 'literals followed by a newline']
 BUDGET_S = {'quick': 900, 'thorough': 3300}
 
 FOLLOW = ['x', ' x', '', ' ', '\\relax x', '{x}', '.x']
@@ -476,7 +477,7 @@ def h_glue(e, stretch, shrink, follow):
 
 # ---------------------------------------------------------------------------------------------- (B) signatures
 ARGKINDS = ['*', '[o]', '(o)', '<o>', 'm']
-TYPES = [None, 'str', 'int', 'dimen', 'list', 'dict']
+TYPES = [None, 'str', 'int', 'dimen', 'list', 'dict', 'float', 'nox']
 _MACROS = {}
 
 
@@ -560,6 +561,10 @@ def h_sig(e, kinds, types, present, ncontent):
             content = [e.char('v%d_%d' % (i, j), 48, 57) for j in range(min(2, ncontent))]
         elif t == 'dimen':
             content = [e.char('v%d_0' % i, 48, 57)] + list('pt')
+        elif t == 'float':
+            sg = e.char('v%d_s' % i, 43, 45)
+            e.assume(e.one_of(sg, '+-'))
+            content = [sg, e.char('v%d_0' % i, 48, 57), '.', e.char('v%d_1' % i, 48, 57)]
         elif t == 'list':
             for j in range(ncontent):
                 c = e.char('v%d_%d' % (i, j), 44, 122)
@@ -624,6 +629,10 @@ def h_sig(e, kinds, types, present, ncontent):
             if len(body) != 3 or not (api.and_(ord_(body[0]) >= 48, ord_(body[0]) <= 57) and eq(body[1], 'p') and eq(body[2], 't')):
                 e.tag('nonconforming')
                 return
+        elif t == 'float':
+            if len(body) != 4 or not (e.one_of(body[0], '+-') and api.and_(ord_(body[1]) >= 48, ord_(body[1]) <= 57) and eq(body[2], '.') and api.and_(ord_(body[3]) >= 48, ord_(body[3]) <= 57)):
+                e.tag('nonconforming')
+                return
         elif t == 'dict':
             if len(body) != 7 or not (eq(body[0], 'k') and eq(body[1], '=') and eq(body[3], ',') and eq(body[4], 'j') and eq(body[5], '=')) \
                     or not (e.one_of(body[2], 'abc') and e.one_of(body[6], 'abc')):
@@ -653,7 +662,14 @@ def h_sig(e, kinds, types, present, ncontent):
         if not pres:
             e.check(got is None, 'absent optional argument %s bound to %r' % (nm, got), 'bind-absent')
             continue
-        if t is None or t == 'str':
+        if t == 'float':
+            val = (ord_(body[1]) - 48) * 10 + (ord_(body[3]) - 48)
+            if eq(body[0], '-'):
+                val = -val
+            d = got * 10 - val if got is not None else None
+            e.check(got is not None and api.and_(d * 10 ** 6 <= 1, d * 10 ** 6 >= -1), 'float argument %s: value or sign' % nm, 'bind-float')
+            continue
+        if t is None or t == 'str' or t == 'nox':
             txt = api.cat(body)
             if t == 'str':
                 want = txt.strip()
@@ -688,6 +704,67 @@ def h_sig(e, kinds, types, present, ncontent):
             e.check(eq(_textof(got['j']), body[6]), 'dictionary value j', 'bind-dict')
     e.nontriv()
     e.check(_same_tokens(rest, _expected_rest(chars, pos)), 'what follows the invocation is affected: invocation not consumed exactly', 'invocation-consumed')
+
+
+def h_direct(e, typ, follow):
+    """argument types read straight off the token stream (no delimiters): <Type> then a mandatory argument"""
+    doc = TeXDocument()
+    mac = _macro('a0:%s a1' % typ)
+    doc.context.addGlobal('mac', mac)
+    y = e.char('y', 97, 122)
+    if typ == 'Number':
+        ds = [e.char('d%d' % i, 48, 57) for i in range(2)]
+        sg = e.char('s', 32, 45)
+        e.assume(e.one_of(sg, '+- '))
+        lit = [sg] + ds
+        want = ((ord_(ds[0]) - 48) * 10 + (ord_(ds[1]) - 48)) * (-1 if eq(sg, '-') else 1)
+    elif typ == 'Dimen':
+        dchars, num, den = _decimal(e, 'D.D', 'd')
+        lit = dchars + list('pt')
+    elif typ == 'Glue':
+        dchars, num, den = _decimal(e, 'D', 'd')
+        pchars, pnum, pden = _decimal(e, 'D', 'p')
+        lit = dchars + list('pt plus ') + pchars + list('fil')
+    elif typ == 'Tok':
+        c = e.char('t', 33, 122)
+        e.assume(api.or_(e.between(c, 97, 122), e.one_of(c, '!1')))
+        lit = [c]
+    elif typ == 'cs':
+        c = e.char('t', 97, 122)
+        lit = ['\\', 'q', c]
+    chars = list('\\mac ') + lit + list(follow) + ['{', y, '}', 'Z', '|']
+    tex = TeX(doc)
+    tex.input(Src(chars))
+    lvl = plasTeX.ParameterCommand._enablelevel
+    try:
+        tok = next(iter(tex))
+        a = tok.attributes
+        rest = _rest(tex)
+    except (ValueError, TypeError, IndexError, AttributeError, KeyError) as ex:
+        e.fail_exception(ex)
+        return
+    e.check(plasTeX.ParameterCommand._enablelevel == lvl, 'parameter-enable level not restored by argument parsing', 'enable-level')
+    got = a.get('a0')
+    e.nontriv()
+    if typ == 'Number':
+        e.check(got is not None and got == want, 'Number argument', 'bind-int')
+    elif typ == 'Dimen':
+        d = got * den - num * 65536 if got is not None else None
+        e.check(got is not None and api.and_(d <= 2 * den, d >= -2 * den), 'Dimen argument', 'bind-dimen')
+    elif typ == 'Glue':
+        d = got - num * 65536 if got is not None else None
+        e.check(got is not None and api.and_(d <= 2, d >= -2), 'Glue argument: natural size', 'bind-glue')
+        st = getattr(got, 'stretch', None)
+        e.check(st is not None and api.and_(st - (pnum + 2 * 10 ** 9) <= 1, st - (pnum + 2 * 10 ** 9) >= -1), 'Glue argument: stretch', 'bind-glue')
+        e.check(getattr(got, 'shrink', None) is None, 'Glue argument: shrink', 'bind-glue')
+    elif typ == 'Tok':
+        e.check(got is not None and eq(api.text_of(got), lit[0]), 'Tok argument is the next token', 'bind-tok')
+    elif typ == 'cs':
+        e.check(got is not None and eq(api.text_of(got), api.cat(['q', lit[2]])), 'cs argument is the name of the control sequence', 'bind-cs')
+    a1 = a.get('a1')
+    sfx = ':after-stream-type' if typ in ('Number', 'Dimen', 'Glue') else ''
+    e.check(a1 is not None and eq(_squeeze(_textof(a1)), y), 'the mandatory argument after a %s argument' % typ, 'bind-content' + sfx)
+    e.check(_same_tokens(rest, _tokens_of(['Z', '|'])), 'what follows the invocation is affected', 'invocation-consumed' + sfx)
 
 
 def h_nest(e, kind, n):
@@ -891,6 +968,9 @@ def jobs(tier, seed):
                 for present in itertools.product(*pres_opts):
                     J.append(dict(harness='h_sig', params=dict(kinds=list(kinds), types=list(types), present=list(present), ncontent=2 if (q or n == 3) else 3),
                                   label='sig %s %s %s' % (' '.join(kinds), types, present), no_twin=True))
+    for typ in ('Number', 'Dimen', 'Glue', 'Tok', 'cs'):
+        for f in (('', ' ') if typ not in ('Tok',) else ('',)):
+            J.append(dict(harness='h_direct', params=dict(typ=typ, follow=f), label='direct type %s %r' % (typ, f), no_twin=True))
     for kind in ('[o]', 'm', '(o)'):
         J.append(dict(harness='h_nest', params=dict(kind=kind, n=5 if q else 6), label='nesting %s' % kind, split=4, no_twin=True))
     for typ in ('dict', 'list'):
